@@ -14,8 +14,14 @@ AUDIT_MACRO = {"ARM": "ARM", "AARCH64": "AARCH64", "I386": "I386", "X32": "X86_6
                "MIPS64N32": "MIPS64N32", "MIPSEL64": "MIPSEL64", "MIPSEL64N32": "MIPSEL64N32"}
 STATEMENT_ALIASES = {"amd64": "X86_64", "x86_64": "X86_64", "386": "I386", "i386": "I386", "arm64": "AARCH64", "aarch64": "AARCH64", "x32": "X32", "arm": "ARM"}
 NO_TABLE = ["ppc", "ppc64", "ppc64le", "s390", "s390x", "mips", "mipsle", "mipsel", "mips64", "mips64le", "mips64p32", "mips64p32le", "mipsel64",
-            "mipsel64n32", "mips64n32", "riscv64", "loong64", "sparc64", "wasm", "riscv", "ia64"]
-JUNK = [" amd64", "amd64 ", "amd_64", "x86-64", "x86_64\n", "arm6", "arm644", "i686", "x64", "amd", "64", "a", "x86", "x86_32", "aarch32", "arm64be", "i3866", "\tarm", "x32 ", "X 32"]
+            "mipsel64n32", "mips64n32", "riscv64", "loong64", "sparc64", "wasm", "riscv", "ia64",
+            # the other architecture names the Go toolchain knows (go/build's list) ...
+            "amd64p32", "armbe", "arm64be", "sparc",
+            # ... and the other AUDIT_ARCH names of the kernel's audit.h (lower case, as the package spells the ones it knows)
+            "alpha", "arcompact", "arcv2", "armeb", "c6x", "c6xbe", "cris", "csky", "frv", "h8300", "hexagon", "loongarch32", "loongarch64", "m32r", "m68k",
+            "microblaze", "nds32", "nds32be", "nios2", "openrisc", "parisc", "parisc64", "riscv32", "sh", "shel", "sh64", "shel64", "tilegx", "tilegx32",
+            "tilepro", "unicore", "xtensa"]
+JUNK = [" amd64", "amd64 ", "amd_64", "x86-64", "x86_64\n", "arm6", "arm644", "i686", "x64", "amd", "64", "a", "x86", "x86_32", "aarch32", "i3866", "\tarm", "x32 ", "X 32"]
 
 
 def first_existing(*paths):
